@@ -22,6 +22,29 @@ class NotApplicable(Exception):
     pass
 
 
+_SERVER = [None]
+
+
+def _server():
+    """The remote server of the current replay (started on demand, stopped by replay_one when the replay is over: a live
+    non-daemonic child would keep the replaying process from exiting)."""
+    if _SERVER[0] is None or not _SERVER[0].is_alive():
+        from pyworkers.remote_server import spawn_server
+        _SERVER[0] = spawn_server(('127.0.0.1', 0))
+    return _SERVER[0]
+
+
+def _stop_server():
+    if _SERVER[0] is not None:
+        try:
+            _SERVER[0].terminate(timeout=1, force=True)
+            if _SERVER[0]._child.is_alive():
+                os.kill(_SERVER[0]._child.pid, signal.SIGKILL)
+        except Exception:  # noqa
+            pass
+        _SERVER[0] = None
+
+
 class Mismatch(Exception):
     pass
 
@@ -136,6 +159,8 @@ class Adapter:
         if how == 'eof':
             if self.rep.kind == 'thread':
                 raise NotApplicable('a thread worker cannot die with a bare EOF')
+            if self.rep.kind == 'remote':
+                raise NotApplicable('the forwarding thread of a remote worker always synthesises an end marker')
             os.kill(self.real.pid, signal.SIGKILL)
         else:
             r = self.real.terminate(timeout=10, force=False)
@@ -287,12 +312,14 @@ class Replayer:
         pool = None
         try:
             pool = P.Pool(None, retry=cfg['retry'], close_timeout=2)
-            cls = PersistentThreadWorker if self.kind == 'thread' else PersistentProcessWorker
+            from pyworkers.persistent_remote import PersistentRemoteWorker
+            cls = {'thread': PersistentThreadWorker, 'process': PersistentProcessWorker, 'remote': PersistentRemoteWorker}[self.kind]
+            extra_kw = {'host': _server().addr} if self.kind == 'remote' else {}
 
             def factory(**kw):
                 idx = len(box.workers)
                 rp = kw['results_pipe']
-                real = cls(targets.gate_target, results_pipe=rp, kwargs={'widx': idx, 'gdir': gdir}, name='pwv-%d' % idx)
+                real = cls(targets.gate_target, results_pipe=rp, kwargs={'widx': idx, 'gdir': gdir}, name='pwv-%d' % idx, **extra_kw)
                 sw = PoisonShadow(box, idx, FakePipe())
                 box.workers.append(sw)
                 rp.parent_end.shadow = sw.conn
@@ -378,6 +405,9 @@ def replay_one(args):
         return ('na', str(e), cfg, choices, kind)
     except Mismatch as e:
         return ('mismatch', str(e), cfg, choices, kind)
+    finally:
+        if kind == 'remote':
+            _stop_server()
     if okey(rout) != okey(mout):
         return ('mismatch', 'outcome: real %s, model %s' % (okey(rout), okey(mout)), cfg, choices, kind)
     return ('ok', mout.kind, cfg, choices, kind)
@@ -430,18 +460,24 @@ def conformance(ctx):
         for choices, _ in tr:
             jobs.append((cfg, choices, 'thread'))
             jobs.append((cfg, choices, 'process'))
+            if not ctx.quick or bi == 0:
+                jobs.append((cfg, choices, 'remote'))
     n_ok = n_na = 0
     bad = []
+    per_kind = {}
     import concurrent.futures as cf
     mpctx = multiprocessing.get_context('spawn')
     with cf.ProcessPoolExecutor(min(12, os.cpu_count() or 4), mp_context=mpctx, max_tasks_per_child=50, initializer=_quiet) as pool:
         for res in pool.map(replay_one, jobs, chunksize=2):
+            pk = per_kind.setdefault(res[4], {'ok': 0, 'na': 0, 'mismatch': 0})
+            pk[res[0]] += 1
             if res[0] == 'ok':
                 n_ok += 1
             elif res[0] == 'na':
                 n_na += 1
             else:
                 bad.append({'why': res[1], 'box': res[2], 'choices': res[3], 'kind': res[4]})
+    ctx.extra['conformance_per_kind'] = per_kind
     return n_ok, n_na, bad
 
 
